@@ -90,7 +90,9 @@ def job_grid(ctx, k, lo, hi):
             ctx.cls('trace<=0')
         for meth, kw in METHODS:
             mn = mname(meth, kw)
-            for route, fn in (('DCM.to_quaternion', lambda: DCM(R.copy()).to_quaternion(method=meth, **kw)),
+            for route, fn in (('DCM(F-ordered).to_quaternion', lambda: DCM(np.asfortranarray(R)).to_quaternion(method=meth, **kw)),
+                              ('Quaternion(dcm=F-ordered)', lambda: Quaternion(dcm=np.asfortranarray(R), method=meth, **kw)),
+                              ('DCM.to_quaternion', lambda: DCM(R.copy()).to_quaternion(method=meth, **kw)),
                               ('DCM.to_q', lambda: DCM(R.copy()).to_q(method=meth, **kw)),
                               ('Quaternion(dcm=)', lambda: Quaternion(dcm=R.copy(), method=meth, **kw)),
                               ('QuaternionArray(DCM=[R])', lambda: np.asarray(QuaternionArray(DCM=R.copy()[None], method=meth, **kw))[0])):
@@ -150,6 +152,54 @@ def job_options(ctx, k):
             ctx.seen(('opt', rn, m, str(kw)))
 
 
+def job_sequences(ctx, k):
+    """Two-call sequences through every dispatcher: a call WITH an option (valid or refused), then a call relying on the defaults.
+    The second answer must be the default method's answer (options must not stick).  Also integer-typed matrices."""
+    from ahrs import Quaternion, QuaternionArray, DCM
+    mats = [('identity', np.eye(3)), ('generic', rq.R(A.MENU[k])), ('tiny', rq.axang2R([1, 2, 3], 1e-9)), ('half-turn', rq.R(np.array([0.0, 0.6, 0.0, 0.8])))]
+    routes = {'DCM.to_quaternion': lambda R, m, kw: DCM(R.copy()).to_quaternion(method=m, **kw),
+              'Quaternion(dcm=)': lambda R, m, kw: Quaternion(dcm=R.copy(), method=m, **kw),
+              'QuaternionArray(DCM=[R])': lambda R, m, kw: np.asarray(QuaternionArray(DCM=R.copy()[None], method=m, **kw))[0]}
+    firsts = [('sarabandi', {'threshold': 3.0}), ('sarabandi', {'threshold': -3.0}), ('itzhack', {'version': 1}), ('itzhack', {'version': 4}), ('no-such-method', {})]
+    for lab, R in mats:
+        ang = rq.rot_angle_R(R)
+        for rn, fn in routes.items():
+            for fm, fkw in firsts:
+                for sm in ('sarabandi', 'itzhack', 'shepperd'):
+                    if sm == 'sarabandi' and ang > math.pi - 1e-6:
+                        continue
+                    try:
+                        fn(R, fm, fkw)
+                    except Exception:
+                        pass
+                    key = f'R={lab} first={mname(fm, fkw)} then={sm}(defaults) k{k}'
+                    try:
+                        q = fn(R, sm, {})
+                    except Exception as ex:
+                        ctx.evals += 1
+                        ctx.fail(f'{rn}: default call after a call with options raises', key, f'{type(ex).__name__}: {ex}'[:160], 'a quaternion')
+                        continue
+                    _judge(ctx, q, R, ang, sm + '(after options)', sm, rn, key)
+                    ctx.seen(('seq', lab, rn, fm, str(fkw), sm))
+                    ctx.cls('sequence')
+    # rotation matrices with integer entries (the 24 axis-aligned orientations) given with an integer dtype
+    for i, q in enumerate(A.G48()):
+        R = rq.R(q)
+        if np.abs(R - np.round(R)).max() > 1e-12:
+            continue
+        Ri = np.round(R).astype(int)
+        for meth in ('shepperd', 'itzhack'):
+            for rn, fn in (('DCM(int matrix).to_quaternion', lambda: DCM(Ri.copy()).to_quaternion(method=meth)), ('Quaternion(dcm=int matrix)', lambda: Quaternion(dcm=Ri.copy(), method=meth))):
+                try:
+                    qq = fn()
+                except Exception as ex:
+                    ctx.evals += 1
+                    ctx.fail(f'{rn}: raises', f'R=G48[{i}] method={meth}', f'{type(ex).__name__}: {ex}'[:160], 'a quaternion')
+                    continue
+                _judge(ctx, qq, np.round(R), rq.rot_angle_R(R), meth, meth, rn, f'G48[{i}](int dtype)')
+    ctx.sample({'sequence': ['sarabandi[threshold=3.0]', 'sarabandi(defaults)'], 'matrix': 'identity'})
+
+
 def run(ctx):
     ks = list(range(8)) if ctx.thorough else [A.seed_k(ctx.seed)]
     jobs = []
@@ -158,5 +208,6 @@ def run(ctx):
         jobs += [('job_grid', (k, lo, hi)) for lo, hi in core.chunks(n, 15)]
         jobs.append(('job_batch', (k,)))
         jobs.append(('job_options', (k,)))
+        jobs.append(('job_sequences', (k,)))
     core.run_jobs(ctx, __name__, jobs)
     ctx.notes['matrices_per_menu_entry'] = len(matrices(ks[0]))
